@@ -6,6 +6,8 @@ package main
 import (
 	"verif/mc"
 
+	_ "verif/checks/c01"
+	_ "verif/checks/c02"
 	_ "verif/checks/c06"
 	_ "verif/checks/c19"
 )
